@@ -154,7 +154,10 @@ func c12RunDirectedStaleLeader(t *testing.T, r *verifkit.Run, caseIdx int) {
 	cancel()
 	switch {
 	case err != nil:
-		// Rejecting or never resolving P is within the contract.
+		// Rejecting or never resolving P is within the contract. Since /repo
+		// 221e536ba (raft DisableProposalForwarding) the expected outcome is
+		// ErrNotLeader; an acknowledgement goes through the ordinary ack oracle,
+		// whose signature flags the defect should it return.
 		r.Count("directed.P_not_acknowledged("+c12ErrClass(err)+")", 1)
 	default:
 		r.Count("directed.P_acknowledged", 1)
